@@ -43,7 +43,7 @@ def exhaustive(tier):
 
 def model_runs(tier):
     return [dict(name="CFGGen-M1", module="CFGGen", timeout=900,
-                 cfg=gen_cfg(2, 1, 3, 2, invariants=("DerivOK", "EmptyOK", "NullOK", "FiniteOK")))]
+                 cfg=gen_cfg(2, 1, 3, 2, invariants=("DerivOK", "EmptyOK", "NullOK", "FiniteOK", "TrimOK")))]
 
 
 def hashseeds(tier):
